@@ -948,11 +948,11 @@ class Agg:
     def summary(self, wall):
         return ("C18: %d runs over %d workloads in %.0fs (%.0f runs/h), %d events, %d switches, classes %s, "
                 "distinct schedules %d, conflict signatures %d, nontrivial %d, cells %d/%d (inside %d, overlap %d), "
-                "faults fired preempt/stall/late/clock %s, throws %d, guard_init %d guard_block %d preempt_in_init %d, twice %d/%d" % (
+                "faults fired preempt/stall/late/clock %s, throws %d, guard_init %d guard_block %d preempt_in_init %d, twice %d/%d, workloads without reference %d" % (
                     self.runs, self.workloads, wall, self.runs / max(wall, 1e-9) * 3600, self.events, self.switches,
                     dict(self.cls), len(self.sched_set), len(self.csig_set), len(self.nontrivial), len(self.cells),
                     len(self.all_cells()), len(self.inside), len(self.overlap), self.fired, self.throws, self.guard_init,
-                    self.guard_block, self.preempt_in_init, self.twice_same, self.twice_total))
+                    self.guard_block, self.preempt_in_init, self.twice_same, self.twice_total, len(self.ref_failed)))
 
 
 EV_KIND_NAMES = ["read", "write", "atomic", "guard", "mutex", "alloc", "clock", "op_begin", "op_end", "task_start",
